@@ -17,6 +17,15 @@ respondents (integer counts) and mean / population variance / median are compute
 with exact fractions; None / NaN conventions are checked against the property text.  The
 margins are additionally compared between a run with hide / order / prune transforms and the
 untransformed run (hidden elements still count).
+
+MAGNITUDE / ZERO SPREAD (added after seeded change C14-9: the variance expanded to sum(c v^2) - 2 m sum(c v) +
+m^2 sum(c), algebraically identical but cancelling catastrophically when the spread is tiny relative to the
+values; every generated numeric value was in -6..12).  The property quantifies over ANY assignment of numeric
+values: 60% of the dominant cases multiply every numeric value by 12500 / 100000 (income mid-points) or add an
+offset of 30000 / 100000 (a spread of a few units on values of the order 1e5), and the vector pattern
+`single_valued` puts every numeric-valued respondent of a vector in ONE category with the others in categories
+without a value (stddev = stderr = 0 exactly).  Distribution keys `numeric values at magnitude *`,
+`dominant vector pattern=single_valued`.
 """
 import json
 import random
@@ -273,7 +282,11 @@ def gen_large_case(rng, k):
 # ---- dominant-vector stream (round 3): a vector whose respondents nearly all sit in ONE valued category,
 # ---- and a vector whose respondents ALL sit in categories WITHOUT a numeric value while its base is not 0
 
-DOMINANT_PATTERNS = ("dominant_valued", "all_unvalued", "dominant_unvalued", "random")
+DOMINANT_PATTERNS = ("dominant_valued", "all_unvalued", "dominant_unvalued", "single_valued", "random")
+# numeric values of real scales are often of the order 1e4..1e5 (income mid-points): with probability 0.5 a
+# dominant case multiplies every numeric value by one of these
+# (x), or adds an offset (+): a spread that is tiny relative to the values (years, ids of brackets, ...)
+MAGNITUDES = (("x", 12500), ("x", 100000), ("+", 30000), ("+", 100000), ("+", 30000))
 
 
 def dominant_vector(rng, vals, pattern):
@@ -302,6 +315,15 @@ def dominant_vector(rng, vals, pattern):
         counts[rng.choice(unvalued)] = N - r
         for _ in range(r):
             counts[rng.choice(valued)] += 1
+    elif pattern == "single_valued" and unvalued and valued:
+        # ZERO SPREAD (after seeded change C14-9: the variance expanded to sum(c v^2) - 2 m sum(c v) + m^2 sum(c),
+        # which cancels catastrophically when the spread is tiny relative to the values): every numeric-valued
+        # respondent in ONE category, the others in categories without a value (so that the mean is a quotient
+        # of inexact proportions); an ordinary number of respondents.  stddev = stderr = 0, mean = that value
+        n_val, n_unval = rng.randint(1, 60), rng.randint(1, 60)
+        counts[rng.choice(valued)] = n_val
+        for _ in range(n_unval):
+            counts[rng.choice(unvalued)] += 1
     else:
         counts = [rng.randint(0, 50) for _ in range(n)]
     return counts
@@ -322,10 +344,21 @@ def gen_dominant_case(rng, k):
         [c for c in v.cats if not c["missing"]][0]["numeric_value"] = None
         return v
 
+    magnitude = rng.choice(MAGNITUDES) if rng.random() < 0.6 else ("x", 1)
+    _partial = partial
+
+    def partial(alias):  # noqa: F811
+        v = _partial(alias)
+        for c in v.cats:
+            if c.get("numeric_value") is not None:
+                c["numeric_value"] = (c["numeric_value"] * magnitude[1] if magnitude[0] == "x"
+                                      else c["numeric_value"] + magnitude[1])
+        return v
+
     if strand:
         rowv = partial("rowv")
         variables, aliases = [rowv], ["rowv"]
-        pat = rng.choice(DOMINANT_PATTERNS[:3])
+        pat = rng.choice(DOMINANT_PATTERNS[:4])
         patterns.append(pat)
         vec = dominant_vector(rng, _vals_of(rowv), pat)
         sv = gen.Survey(variables, 0, rng, weighted=True)
@@ -368,7 +401,7 @@ def gen_dominant_case(rng, k):
     return {"k": k, "strand": strand, "shape": shape, "response": resp,
             "transforms": {}, "hidden": {},
             "dimvals": [[None if x is None else str(x) for x in d] for d in dv],
-            "integer_weights": True, "large": True, "dominant": True, "patterns": patterns}
+            "integer_weights": True, "large": True, "dominant": True, "patterns": patterns, "magnitude": list(magnitude)}
 
 
 def exhaustive_cases(tier):
@@ -917,6 +950,7 @@ def _replayable(case):
         d["large"], d["patterns"] = True, case.get("patterns", [])
     if case.get("dominant"):
         d["dominant"] = True
+        d["magnitude"] = case.get("magnitude")
     return d
 
 
@@ -988,6 +1022,8 @@ def run(tier, seed):
             rep.dist("dominant-vector (2^20..2^24 respondents, all but <= 1e-6 in one category)")
             for pat in case.get("patterns", []):
                 rep.dist("dominant vector pattern=" + pat)
+            if tuple(case.get("magnitude") or ("x", 1)) != ("x", 1):
+                rep.dist("numeric values at magnitude %s%d" % tuple(case["magnitude"]))
         elif case.get("large"):
             rep.dist("large-N (1e5..1e6 respondents per designed vector)")
             for pat in case.get("patterns", []):
